@@ -31,7 +31,9 @@ Inductive ptok : Type :=
 | PFunc (name : list N) (args : list ptok)         (* pa.FunctionBlock *)
 | PWs                                              (* pa.Whitespace *)
 | PComment                                         (* pa.Comment *)
-| POther.                                          (* every other token type *)
+| POther                                           (* every other token type *)
+| PHash (v : list N)                               (* pa.Hash, value without the # (used by Css/ColorMq.v) *)
+| PPercentage (is_int : bool).                     (* pa.Percentage *)
 
 Definition s_plus : list N := [43]%N.
 Definition s_minus : list N := [45]%N.
